@@ -25,6 +25,7 @@ def gp_expander(prog, scalar_mean=True):
     ex = MExpander(prog, ci.module, ci)
     ex.atoms = dict(ATOMS)
     ex.ctor_methods = ("__init__", "set_hyperparameters")
+    state = {"q": []}      # query arguments of the cross-covariance calls seen so far
 
     def hook(e, node, env):
         f = ast.unparse(node.func)
@@ -39,11 +40,20 @@ def gp_expander(prog, scalar_mean=True):
         if f == "self.cov" and len(node.args) == 3:
             a, b = ast.unparse(node.args[0]), ast.unparse(node.args[1])
             if b == "self.x":
+                # the query argument of the cross-covariance names the point(s) this prediction is for
+                state['q'].append(a)
                 return M.atom("Kqx", 2)
             if a == b:
-                return M.atom("Kqq", 2, True)
+                # prior (co)variance: must be evaluated at the very query argument the cross-covariance uses
+                if state['q'] and a == state['q'][-1]:
+                    return M.atom("Kqq", 2, True)
+                ncf.SYMMETRIC.add(f"Kqq<{a}>")
+                return M.atom(f"Kqq<{a}>", 2, True)
             return M.atom(f"K({a},{b})", 2)
         if f == "self.mean" and len(node.args) == 2:
+            a = ast.unparse(node.args[0])
+            if state['q'] and a != state['q'][-1]:
+                return M.atom(f"mq<{a}>", 0 if scalar_mean else 1)
             return M.atom("mq", 0 if scalar_mean else 1)
         if f == "array" and node.args and isinstance(node.args[0], ast.ListComp) \
                 and ast.unparse(node.args[0].elt).startswith("self.mean("):
